@@ -1,9 +1,15 @@
 import Model.GoPrelude
 import Model.GoStrings
+/-! REGENERATED on every run by harness/cmd/go2lean -spec gerrorstack from gerror/stack.go. Do not edit.
+Each definition follows the Go function of the same name statement by statement (Model/GoPrelude.lean and
+Model/GoStrings.lean fix the meaning of the primitives: strings are character lists, slices are lists, ints
+are natural numbers with a checked subtraction, strings.Split/Join/HasPrefix/TrimSuffix and strconv.Itoa are
+defined there).  A labelled `break L` out of nested loops is the flag `brk_L`.  What comes from the runtime is
+the parameter `env`: `runtime.Caller(1)`'s pc, the pcs `runtime.Callers(skip, …)` finds, `pcToStackElem`. -/
 set_option linter.unusedVariables false
 namespace Generated.GoGerrorStack
 
-/-- `type StackElem struct` -/
+/-- `type StackElem struct` (field order of the source) -/
 structure StackElem where
   Name : Go.Str
   File : Go.Str
@@ -12,8 +18,12 @@ structure StackElem where
 
 /-- what stack.go takes from the runtime -/
 structure Env (π : Type) where
+  /-- `pc, _, _, _ := runtime.Caller(1)` inside getCurrentPackage: the pc of its caller -/
   callerPC : π
+  /-- `runtime.Callers(skip, pcs)`: the pcs of the goroutine's stack after `skip` frames, innermost first;
+  as many of them as fit are written to `pcs` (`Go.fillPrefix`) -/
   callers : Nat → List π
+  /-- `pcToStackElem` (runtime.FuncForPC, FileLine) -/
   pcToStackElem : π → StackElem
 
 def defaultSkip : Nat := 4
